@@ -119,6 +119,8 @@ class FakeRedisMixin:
         default_args = parameters.values()
         kwds = {p.name: p.default for p in default_args if p.default != inspect.Parameter.empty}
         kwds.update(kwargs)
+        # Arguments given by position (host, port, db, ...) configure the connections too
+        kwds.update(zip(parameter_names[1:], args))
         if not kwds.get('connection_pool', None):
             charset = kwds.get('charset', None)
             errors = kwds.get('errors', None)
